@@ -4,6 +4,7 @@ import OrsoVerif.Lemmas.ProfileEst
 import OrsoVerif.Lemmas.HistObj
 import OrsoVerif.Lemmas.TableProf
 import OrsoVerif.Lemmas.ProfileHist
+import OrsoVerif.Model.PyNum
 import Mathlib.Algebra.Order.Ring.Rat
 import Mathlib.Algebra.Field.Rat
 import Mathlib.Data.Rat.Floor
@@ -205,9 +206,10 @@ theorem quantile_outside (floor : K → K) (mn mx : Option K) (value : K) :
   split
   · rfl
   · rw [if_pos]
-    simp only [Gen.DistogramExpr.quantInRange, decide_eq_true_eq]
-    intro ⟨h0, h1⟩
-    rcases h with h | h <;> linarith
+    -- whichever way the source spells the guard (`not (0 <= v <= 1)`, `v < 0 or v > 1`): on an ordered field the same test
+    intro hq
+    simp only [Gen.DistogramExpr.quantInRange, decide_eq_true_eq, not_or, not_lt, gt_iff_lt] at hq
+    rcases h with h | h <;> linarith [hq.1, hq.2]
 
 /-- **`quantile(0)` is the minimum.** -/
 theorem quantile_0 (floor : K → K) (ok : HistOK bins lo hi) (hf : FloorLike floor (mass bins)) :
@@ -1131,5 +1133,67 @@ example :
   · intro b hb; simp at hb; rcases hb with rfl | rfl | rfl <;> norm_num
   · intro b hb; simp at hb; rcases hb with rfl | rfl | rfl <;> norm_num
   · decide +kernel
+
+/-! ## Unordered arguments: a level / a point that is not a number (round 6)
+
+The guards of `quantile` and `count_at` are regenerated from the source **as written** and are polymorphic in the
+carrier, so they — and the whole models built on them — can be run at `PyNum F`: numbers of `F` plus a `nan` with which
+every comparison is false (Python's float comparisons).  On numbers `not (0 <= v <= 1)` and `v < 0 or v > 1` are the
+same test (`quantile_outside` holds for either); at `nan` they differ, and the property's "None outside [0, 1]" /
+"None outside the observed range" includes `nan` (it is not a member of the interval). -/
+section Unordered
+variable {F : Type} [Add F] [Sub F] [Mul F] [Div F] [LT F] [LE F]
+  [DecidableLT F] [DecidableLE F] [OfNat F 0] [OfNat F 1] [OfNat F 2]
+
+/-- **The level guard of `quantile` refuses NaN** — about the generated `quantInRange`; the De Morgan rewrite
+`if value < 0 or value > 1: return None` makes this `true` (seeded C14-w7s2). -/
+theorem quantile_guard_refuses_nan :
+    Gen.DistogramExpr.quantInRange (PyNum.nan : PyNum F) = false := by
+  simp [Gen.DistogramExpr.quantInRange]
+
+/-- **`quantile` is None at a level that is not a number**, for every histogram, every bounds, every `int()`. -/
+theorem quantile_nan (floor : PyNum F → PyNum F) (bins : List (PyNum F × PyNum F)) (mn mx : Option (PyNum F)) :
+    quantile floor bins mn mx PyNum.nan = none := by
+  unfold quantile
+  split
+  · rfl
+  · rw [if_pos (by simp [quantile_guard_refuses_nan])]
+
+/-- On numbers the guard run at `PyNum F` is the guard run at `F`: the NaN carrier adds a point, it changes nothing else. -/
+theorem quantile_guard_on_numbers (p : F) :
+    Gen.DistogramExpr.quantInRange (PyNum.num p) = Gen.DistogramExpr.quantInRange p := by
+  simp [Gen.DistogramExpr.quantInRange]
+
+/-- **The range guard of `count_at` refuses NaN** — about the generated `countOutside` (repaired defect C14-F04: the
+guard was `value < h.min or value > h.max`, which lets NaN through to the interior branch and answers NaN). -/
+theorem countAt_guard_refuses_nan (lo hi : PyNum F) :
+    Gen.DistogramExpr.countOutside (PyNum.nan : PyNum F) lo hi = true := by
+  simp [Gen.DistogramExpr.countOutside]
+
+/-- **`count_at` is None at a point that is not a number**, for every histogram and every bounds. -/
+theorem countAt_nan (bins : List (PyNum F × PyNum F)) (mn mx : Option (PyNum F)) :
+    countAt bins mn mx PyNum.nan = none := by
+  unfold countAt
+  split
+  · rw [if_pos (countAt_guard_refuses_nan _ _)]
+  · rfl
+
+/-- …and so are the profile's two estimates (`estimate_values_below`: None; `estimate_values_above`: no number). -/
+theorem estimates_nan (count missing : PyNum F) (bins : List (PyNum F × PyNum F)) (mn mx : Option (PyNum F)) :
+    estimateBelow bins mn mx PyNum.nan = none ∧ estimateAbove count missing bins mn mx PyNum.nan = none := by
+  simp [estimateBelow, estimateAbove, countAt_nan]
+
+theorem countAt_guard_on_numbers (x lo hi : F) :
+    Gen.DistogramExpr.countOutside (PyNum.num x) (PyNum.num lo) (PyNum.num hi) = Gen.DistogramExpr.countOutside x lo hi := by
+  simp [Gen.DistogramExpr.countOutside]
+
+/-- **What the De Morgan form does at NaN**: it is false of an unordered level, so a guard `if value < 0 or value > 1:
+return None` goes on to `int(total_count * nan)`. -/
+theorem de_morgan_guard_lets_nan_through :
+    decide ((PyNum.nan : PyNum F) < 0 ∨ (PyNum.nan : PyNum F) > 1) = false ∧
+    decide (¬ ((0 : PyNum F) ≤ PyNum.nan ∧ (PyNum.nan : PyNum F) ≤ 1)) = true := by
+  simp
+
+end Unordered
 
 end C14
